@@ -55,6 +55,8 @@ def gen_case(rng, tier, idx, fill=False):
     mode = rng.choice(["regular", "jitter", "dups", "gaps", "gaps"] if not fill else ["gaps", "gaps", "gaps", "gaps", "jitter", "dups"])
     rows = streams.make_rows(rng, n, rng.choice(["walk", "walk", "flat_runs", "zero_vol", "spiky"]), step, mode, tf_s,
                              max_gap_buckets=12 if fill else 60)
+    if rng.random() < 0.08:
+        streams.add_subsecond(rng, rows)  # bucketing is at second resolution: sub-second parts must simply be dropped, for every candle alike
     long_gap = False
     if fill and len(rows) >= 16 and rng.random() < 0.03:
         # one very long gap (more than a thousand buckets) in a short stream: still cheap, and contiguity must hold across it
